@@ -77,11 +77,17 @@ def label_cases(f):
     sums = summaries(cfg_of(f), max_paths=20000)
 
     def role(t):
-        for c in cands:
-            t = _re.sub(rf"\b{_re.escape(c)}\b", "CAND", t)
-        for h in hints:
-            t = _re.sub(rf"\b{_re.escape(h)}\b", "HINT", t)
-        return t
+        try:
+            tree = ast.parse(t, mode="eval")
+        except SyntaxError:
+            return t
+        for n in ast.walk(tree):
+            if isinstance(n, ast.Name):
+                if n.id in cands:
+                    n.id = "CAND"
+                elif n.id in hints:
+                    n.id = "HINT"
+        return norm(tree.body)
 
     cases = set()
     guards_ = set()
@@ -91,7 +97,13 @@ def label_cases(f):
         if not tup:
             continue
         facts = {role(x) for x in s.facts}
-        eqs = [x for x in facts if _re.fullmatch(r"HINT == .+|.+ == HINT", x)]
+        eqs = []
+        for x in facts:
+            # `HINT == a or HINT == b`: either spelling of the name matches
+            for part in (x.split(" or ") if " or " in x and all(_re.fullmatch(r"HINT == .+|.+ == HINT", q.strip("()")) for q in x.split(" or ")) else [x]):
+                part = part.strip("()") if " or " in x else part
+                if _re.fullmatch(r"HINT == .+|.+ == HINT", part):
+                    eqs.append(part)
         if eqs:
             matched.append(s)
             for e in eqs:
